@@ -117,6 +117,8 @@ package actor
 //@ func (*relocationFailures).items(r)
 //@   ensures the-recorded-list: result == r.failures
 
+// (the bookkeeping key is the net.JoinHostPort form of the departed node's peers
+// address - the form the registration sites use; every release goes under it)
 // the relocation of one departure, end to end: the job registered for the departed
 // node is released exactly once on every path (stopping system, peer lookup failed,
 // normal completion); every actor that no survivor can host by role is recorded
@@ -131,6 +133,7 @@ package actor
 //@ ghost local rl_fa []string
 //@ ghost local rl_fg []string
 //@ ghost local rl_waited bool
+//@ ghost local rl_key string
 
 //@ func (*relocationWorker).relocate(w, ctx, peerState)
 //@   bounds off
@@ -139,7 +142,11 @@ package actor
 //@   ghost entry rl_nrec = 0
 //@   ghost entry rl_have_items = false
 //@   ghost entry rl_waited = false
+//@   at call 1 of JoinHostPort ghost rl_key = result
+//@   at call 1 of invoke endRelocation assert releases-under-the-bookkeeping-key: arg1 == rl_key
 //@   at call 1 of invoke endRelocation ghost rl_released = rl_released + 1
+//@   at call 1 of (*relocationWorker).finish assert finishes-under-the-bookkeeping-key: arg2 == rl_key
+//@   at call 2 of (*relocationWorker).finish assert finishes-under-the-bookkeeping-key: arg2 == rl_key
 //@   at call 1 of (*relocationWorker).finish ghost rl_released = rl_released + 1
 //@   at call 2 of (*relocationWorker).finish ghost rl_released = rl_released + 1
 //@   at call 1 of allocateActors ghost rl_unp = result2
